@@ -49,21 +49,24 @@ def runCase (w : List String) : String :=
       | .done s => render id "ok" "-" s
       | .err e s => render id "err" (errName e) s
       | .fuel s => render id "fuel" "-" s
-  | ["H", id, hp, fuel, progA, progB] =>
-    -- history: program A, then (the USER_PUNCH block redefined in the next simulation) program B in the same engine
-    match unhexBytes (if progA == "-" then "" else progA), unhexBytes (if progB == "-" then "" else progB) with
-    | some a, some b =>
-      (match compileAndRun (α := Float) (hp == "1") fuel.toNat! (bytesToStr a) with
-       | .done s =>
-         let first := render (id ++ ".1") "ok" "-" s
-         let second := match compileAndRunFrom (carryOver s) fuel.toNat! (bytesToStr b) with
-           | .done s2 => render (id ++ ".2") "ok" "-" s2
-           | .err e s2 => render (id ++ ".2") "err" (errName e) s2
-           | .fuel s2 => render (id ++ ".2") "fuel" "-" s2
-         first ++ "\n" ++ second
-       | .err e s => render (id ++ ".1") "err" (errName e) s
-       | .fuel s => render (id ++ ".1") "fuel" "-" s)
-    | _, _ => s!"M {id} badinput"
+  | "H" :: id :: hp :: fuel :: progs =>
+    -- programs run one after the other in the same engine (a redefined USER_PUNCH, USER_PUNCH 1..k of one simulation):
+    -- each starts from what the previous one left in the engine (`carryOver`)
+    let rec go (k : Nat) (st : Option (St Float)) (ps : List String) (acc : List String) : List String :=
+      match ps with
+      | [] => acc.reverse
+      | p :: rest =>
+        match unhexBytes (if p == "-" then "" else p) with
+        | none => (s!"M {id}.{k} badinput" :: acc).reverse
+        | some b =>
+          let o := match st with
+            | none => compileAndRun (α := Float) (hp == "1") fuel.toNat! (bytesToStr b)
+            | some s => compileAndRunFrom (carryOver s) fuel.toNat! (bytesToStr b)
+          match o with
+          | .done s => go (k + 1) (some s) rest (render s!"{id}.{k}" "ok" "-" s :: acc)
+          | .err e s => (render s!"{id}.{k}" "err" (errName e) s :: acc).reverse
+          | .fuel s => (render s!"{id}.{k}" "fuel" "-" s :: acc).reverse
+    "\n".intercalate (go 1 none progs [])
   | _ => "M ? badline"
 
 def run : IO Unit := do
